@@ -277,6 +277,10 @@ func LiveMPD(a *asset, mpdName string, cfg *ResponseConfig, drmCfg *drm.DrmConfi
 			if err != nil {
 				return nil, fmt.Errorf("adjustASForTimelineNr: %w", err)
 			}
+			if as.SegmentTemplate.StartNumber != nil {
+				// The timeline entries are counted from 0, the segment URLs from the configured startNumber
+				*as.SegmentTemplate.StartNumber += uint32(cfg.getStartNr())
+			}
 			if asIdx == 0 {
 				mpd.PublishTime = m.ConvertToDateTime(calcPublishTime(cfg, se.lsi))
 			}
